@@ -5,13 +5,14 @@
   future it answers, which wire text a front-end message becomes) with Layer B
   (`Jrpc.ClientTasks.step repoExitOrder`: the shutdown protocol of the background tasks) and owns
   only *scheduling*: it mirrors the harness (harness/src/client_faults.rs), where after every op
-  line the real client runs until every task is idle.  `advance` applies the enabled protocol step
-  of highest priority (watcher, send task, read task, front-end futures by ticket); what is held
-  behind a shut gate (transport `send`, transport `close`, `receive`) is not enabled.
+  line the real client runs until every task is idle.  `round` lets each actor (watcher, send task,
+  read task, front-end futures by ticket, stream-draining tasks) run until it has to wait, as the
+  current-thread runtime does, and rounds repeat until nothing moves; what is held behind a shut
+  gate (transport `send`, transport `close`, `receive`) is not enabled.
 
   case header:  case <n> ctasks <num|str> <cap>          (front channel capacity 64: never full)
                 case <n> ctasksx …                        (outside the model: every line answered `-`)
-  ops:          ct call | ct subscribe | ct batch <n> | ct notify | ct deliver <hex>
+  ops:          ct call | ct subscribe | ct batch <n> | ct notify | ct drop <ticket> | ct unsub <ticket> | ct deliver <hex>
                 | ct fault send_err <k> | ct fault recv_err <k> | ct fault peer_close | ct fault garbage <hex>
                 | ct gate send|close|recv|all open|shut | ct probe | ct end
                 | ct deliverbytes <hex> | ct deepdeliver <depth>     (outside the text model: `-` from there on)
@@ -42,6 +43,9 @@ structure CtSt where
   tickets : List (Option Nat) := []                 -- ticket → Layer A operation number (`none`: notification)
   answers : List (Nat × String) := []               -- ticket → what the server's answer resolved it with
   wiresOut : List Text := []                        -- wire texts produced by the current op line
+  gone : List Nat := []                             -- subscribe tickets whose stream the application dropped
+  unsubbed : List Nat := []                         -- subscribe tickets handed to `Subscription::unsubscribe()`
+  draining : List ChanId := []                      -- streams consumed by a task inside `Subscription::unsubscribe`
 
 def causeRepr : Cause → String
   | .sendFailed k => s!"transport(mock:s{k})"
@@ -79,75 +83,97 @@ def frontEnabled (b : ClientTasks.State) : Nat → Nat → Option ClientTasks.Op
       if b.frontClosed || b.queue.length < b.fcap then some (.frontRetry i) else frontEnabled b (i + 1) fuel
     | _ => frontEnabled b (i + 1) fuel
 
-/-- one enabled step of highest priority; `none` = every task is idle -/
-def advance (cs : CtSt) : Option CtSt :=
+/-- the shutdown watcher -/
+def stepWatcher (cs : CtSt) : Option CtSt :=
+  if !cs.b.watcherDone && cs.b.closeBuf.isSome then some (bstep cs .watch) else none
+
+/-- the send task -/
+def stepSend (cs : CtSt) : Option CtSt :=
   let b := cs.b
-  -- 1. the shutdown watcher
-  if !b.watcherDone && b.closeBuf.isSome then some (bstep cs .watch) else
-  -- 2. the send task
-  let sendStep : Option CtSt :=
-    match b.sendP with
-    | .idle =>
-      if b.watcherDone then some (bstep cs .sendSeesClosed)
-      else if b.queue.isEmpty then none
-      else
-        let r := Client.step cs.a (.sendTask 0)
-        let ws := wiresOf r.effs
-        let cs1 := bstep { cs with a := r.st } .sendTake
-        if ws.isEmpty then some (bstep cs1 .sendOk) else some { cs1 with held := ws }
-    | .sending =>
-      if !cs.sendGate then none else
-      (match cs.sendFail with
-       | some k => some (bstep { cs with sendFail := none, held := [] } (.sendErr k))
-       | none => some (bstep { cs with wiresOut := cs.wiresOut ++ cs.held, held := [] } .sendOk))
-    | .closingTransport _ => if cs.closeGate then some (bstep cs .sendTransportClosed) else none
-    | .reporting _ => if b.watcherDone || b.closeBuf.isNone then some (bstep cs .sendReport) else none
-    | .awaitWatcher => if b.watcherDone then some (bstep cs .sendWatcherGone) else none
-    | .done => none
-  match sendStep with
-  | some cs' => some cs'
-  | none =>
-  -- 3. the read task
-  let readStep : Option CtSt :=
-    match b.readP with
-    | .idle =>
-      if b.watcherDone then some (bstep cs .readSeesClosed)
-      else if !cs.recvGate then none
-      else
-        (match cs.inbox with
-         | .err k :: rest => some (bstep { cs with inbox := rest } (.readErr (.recvFailed k)))
-         | .text t :: rest =>
-           let r := Client.step cs.a (.recv t)
-           (match r.fatal with
-            | some f => some (bstep { cs with a := r.st, inbox := rest } (.readErr (.fatal f)))
-            | none =>
-              let comps := completionsOf r.effs
-              let answered : Option (Nat × String) :=
-                match comps with
-                | (aop, s) :: _ => (ticketOfAOp cs aop).map (fun t => (t, s))
-                | [] => none
-              let cs1 := { cs with a := r.st, inbox := rest,
-                                   answers := match answered with
-                                     | some x => cs.answers ++ [x]
-                                     | none => cs.answers }
-              some (bstep cs1 (.readOk (answered.map (·.1)) (queuedMsgs r.effs).length)))
-         | [] => if cs.peerClosed then some (bstep cs (.readErr .peerClosed)) else none)
-    | .reporting _ => if b.watcherDone || b.closeBuf.isNone then some (bstep cs .readReport) else none
-    | .done => none
-  match readStep with
-  | some cs' => some cs'
-  | none =>
-  -- 4. front-end futures
-  match frontEnabled b 0 (b.fronts.length + 1) with
+  match b.sendP with
+  | .idle =>
+    if b.watcherDone then some (bstep cs .sendSeesClosed)
+    else if b.queue.isEmpty then none
+    else
+      let r := Client.step cs.a (.sendTask 0)
+      let ws := wiresOf r.effs
+      let cs1 := bstep { cs with a := r.st } .sendTake
+      if ws.isEmpty then some (bstep cs1 .sendOk) else some { cs1 with held := ws }
+  | .sending =>
+    if !cs.sendGate then none else
+    (match cs.sendFail with
+     | some k => some (bstep { cs with sendFail := none, held := [] } (.sendErr k))
+     | none => some (bstep { cs with wiresOut := cs.wiresOut ++ cs.held, held := [] } .sendOk))
+  | .closingTransport _ => if cs.closeGate then some (bstep cs .sendTransportClosed) else none
+  | .reporting _ => if b.watcherDone || b.closeBuf.isNone then some (bstep cs .sendReport) else none
+  | .awaitWatcher => if b.watcherDone then some (bstep cs .sendWatcherGone) else none
+  | .done => none
+
+/-- the read task -/
+def stepRead (cs : CtSt) : Option CtSt :=
+  let b := cs.b
+  match b.readP with
+  | .idle =>
+    if b.watcherDone then some (bstep cs .readSeesClosed)
+    else if !cs.recvGate then none
+    else
+      (match cs.inbox with
+       | .err k :: rest => some (bstep { cs with inbox := rest } (.readErr (.recvFailed k)))
+       | .text t :: rest =>
+         let r := Client.step cs.a (.recv t)
+         (match r.fatal with
+          | some f => some (bstep { cs with a := r.st, inbox := rest } (.readErr (.fatal f)))
+          | none =>
+            let comps := completionsOf r.effs
+            let answered : Option (Nat × String) :=
+              match comps with
+              | (aop, s) :: _ => (ticketOfAOp cs aop).map (fun t => (t, s))
+              | [] => none
+            let cs1 := { cs with a := r.st, inbox := rest,
+                                 answers := match answered with
+                                   | some x => cs.answers ++ [x]
+                                   | none => cs.answers }
+            some (bstep cs1 (.readOk (answered.map (·.1)) (queuedMsgs r.effs).length)))
+       | [] => if cs.peerClosed then some (bstep cs (.readErr .peerClosed)) else none)
+  | .reporting _ => if b.watcherDone || b.closeBuf.isNone then some (bstep cs .readReport) else none
+  | .done => none
+
+/-- the front-end futures -/
+def stepFront (cs : CtSt) : Option CtSt :=
+  match frontEnabled cs.b 0 (cs.b.fronts.length + 1) with
   | some op => some (bstep cs op)
   | none => none
 
+/-- a task that has been scheduled runs until it has to wait (`true` = it made at least one step) -/
+def exhaust (f : CtSt → Option CtSt) : Nat → CtSt → Bool → CtSt × Bool
+  | 0, cs, p => (cs, p)
+  | fuel + 1, cs, p =>
+    match f cs with
+    | some cs' => exhaust f fuel cs' true
+    | none => (cs, p)
+
+/-- tasks inside `Subscription::unsubscribe` consume their stream until it ends, then drop it -/
+def drainCt (cs : CtSt) : CtSt :=
+  cs.draining.foldl (fun acc c =>
+    let (st', done) := drainOne ((acc.a.core.chans[c]?.map (·.buf.length)).getD 0 + 2) acc.a c
+    { acc with a := st', draining := if done then acc.draining.filter (· != c) else acc.draining }) cs
+
+/-- one scheduling round of the current-thread runtime: watcher, send task, read task, front-end
+futures, stream-draining tasks — each runs until it has to wait -/
+def round (fuel : Nat) (cs : CtSt) : CtSt × Bool :=
+  let (c1, p1) := exhaust stepWatcher fuel cs false
+  let (c2, p2) := exhaust stepSend fuel c1 false
+  let (c3, p3) := exhaust stepRead fuel c2 false
+  let (c4, p4) := exhaust stepFront fuel c3 false
+  (drainCt c4, p1 || p2 || p3 || p4)
+
+/-- rounds until every task is idle -/
 def settleCt : Nat → CtSt → CtSt
   | 0, cs => cs
   | fuel + 1, cs =>
-    match advance cs with
-    | some cs' => settleCt fuel cs'
-    | none => cs
+    match round (fuel + 1) (drainCt cs) with
+    | (cs', true) => settleCt fuel cs'
+    | (cs', false) => cs'
 
 def settleFuel (cs : CtSt) : Nat := 200 + 20 * (cs.inbox.length + cs.b.fronts.length + cs.b.queue.length)
 
@@ -205,9 +231,29 @@ def streamEnded (cs : CtSt) (t : Nat) : Bool :=
 
 def streamTickets (cs : CtSt) : List Nat :=
   (List.range cs.tickets.length).filter (fun t =>
+    !cs.gone.contains t &&
     match cs.answers.find? (·.1 == t) with
     | some (_, s) => s.startsWith "sub:"
     | none => false)
+
+/-- the application lets go of the stream of ticket `t`: `Drop` (`unsub = false`) or
+`Subscription::unsubscribe()`; the message for the send task gets into the front channel only while
+it is open -/
+def consumerOp (cs : CtSt) (t : Nat) (unsub : Bool) : CtSt × String :=
+  if !(streamTickets cs).contains t || cs.unsubbed.contains t then (cs, "bad-op") else
+  match cs.tickets[t]?.join.bind (chanOfOp cs.a) with
+  | none => (cs, "bad-op")
+  | some c =>
+    let before := cs.b.fronts
+    let room := !cs.b.frontClosed && decide (cs.b.queue.length < cs.b.fcap)
+    let r := Client.step cs.a (if unsub then .unsubscribeStream c else .dropStream c room)
+    let queued := decide (r.st.pool.length > cs.a.pool.length) && !cs.b.frontClosed
+    -- a message that cannot enter the closed channel is lost
+    let a' := if cs.b.frontClosed then { r.st with pool := cs.a.pool } else r.st
+    let cs1 := { cs with a := a', gone := if unsub then cs.gone else cs.gone ++ [t],
+                         unsubbed := if unsub then cs.unsubbed ++ [t] else cs.unsubbed,
+                         draining := if unsub then cs.draining ++ [c] else cs.draining }
+    finishOp (if queued then bstep cs1 .consumerMsg else cs1) before
 
 def unresolvedTickets (cs : CtSt) : List Nat :=
   (List.range cs.b.fronts.length).filter (fun i =>
@@ -236,6 +282,14 @@ def ctVerb (cs : CtSt) (ws : List String) : Option (CtSt × String) :=
       | "batch", [n] =>
         (match n.toNat? with
          | some k => if k == 0 || k > 64 then (cs, "bad-op") else frontOp cs (.newBatch tM k) true
+         | none => (cs, "bad-op"))
+      | "drop", [k] =>
+        (match k.toNat? with
+         | some t => consumerOp cs t false
+         | none => (cs, "bad-op"))
+      | "unsub", [k] =>
+        (match k.toNat? with
+         | some t => consumerOp cs t true
          | none => (cs, "bad-op"))
       | "notify", [] => frontOp cs (.newNotification (encodeNotif { method := tM, params := none })) false
       | "deliver", [h] =>
